@@ -67,12 +67,38 @@ def attrs(s, kind):
         return ['Deref', 'DerefMut'], {1: 'Deref, DerefMut'}, {}
     if s == 'Into':
         return ['Into(u8)', 'Into(u64)'], {1: 'Into(u8), Into(u64)'}, {}
+    # attribute-dependent template paths (bindings that only exist under a parameter)
+    if s in ('DebugFlip', 'DebugFlipM'):
+        fm = {2: 'Debug(method(fmt_m))'} if s == 'DebugFlipM' else {}
+        if kind == 'en':
+            return ['Debug'], fm, {0: 'Debug(named_field = true)', 1: 'Debug(named_field = false)'}
+        return ['Debug(named_field = %s)' % ('false' if kind == 'sn' else 'true')], fm, {}
+    if s == 'DebugOff':
+        if kind == 'en':
+            return ['Debug(name = true)'], {}, {0: 'Debug(name = false, named_field = true)', 1: 'Debug(name = false)'}
+        return ['Debug(name = false)'], {}, {}
+    if s == 'EqM':
+        return ['PartialEq', 'Eq'], {2: 'PartialEq(method(eq_any))'}, {}
+    if s == 'OrdM':
+        # (with both order traits educed the field takes one attribute, which both impls follow)
+        return ['PartialEq', 'Eq', 'PartialOrd', 'Ord'], {2: 'Ord(method(cmp_any))'}, {}
+    if s == 'POrdM':
+        return ['PartialEq', 'PartialOrd'], {2: 'PartialOrd(method(pcmp_same))'}, {}
+    if s == 'HashM':
+        return ['Hash'], {2: 'Hash(method(hash_any))'}, {}
+    if s == 'CloneM2':
+        return ['Clone'], {0: 'Clone(method(::core::clone::Clone::clone))', 2: 'Clone(method(::core::clone::Clone::clone))'}, {}
     raise ValueError(s)
+
+
+XSETS = ['DebugFlip', 'DebugFlipM', 'DebugOff', 'EqM', 'OrdM', 'POrdM', 'HashM', 'CloneM2']
+BASE = {'DebugFlip': 'Debug', 'DebugFlipM': 'Debug', 'DebugOff': 'Debug', 'EqM': 'PartialEq', 'OrdM': 'Ord', 'POrdM': 'PartialOrd', 'HashM': 'Hash', 'CloneM2': 'Clone'}
 
 
 def program(s, kind, nm, with_check=True, derive=True):
     """kind: sn (named struct) | st (tuple struct) | en (enum: tuple variant + named variant).  nm: names."""
     tl, fm, vm = attrs(s, kind)
+    s = BASE.get(s, s)
     ty, lt, tp, cp = nm['ty'], nm['lt'], nm['tp'], nm['cp']
     gdecl = "<'%s, %s, const %s: usize>" % (lt, tp, cp)
     gargs = "<'%s, %s, %s>" % (lt, tp, cp)
@@ -88,6 +114,8 @@ def program(s, kind, nm, with_check=True, derive=True):
         return ('#[educe(%s)] ' % fm[k]) if (derive and k in fm) else ''
     head = ('#[derive(Educe)]\n' + ''.join('#[educe(%s)]\n' % m for m in tl)) if derive else ''
     where = ' where %s: ::core::marker::Copy' % tp if s == 'CopyClone' else ''
+    if fm.get(0, '').startswith('Clone(method'):
+        where = ' where %s: ::core::clone::Clone' % tp
     fn = [nm['f0'], nm['f1'], nm['f2']]
     if kind == 'sn':
         src = head + 'pub struct %s%s%s {\n%s}\n' % (ty, gdecl, where, ''.join('    %spub %s: %s,\n' % (fa(k), fn[k], fts[k]) for k in range(3)))
@@ -99,10 +127,11 @@ def program(s, kind, nm, with_check=True, derive=True):
         get1 = lambda x: '%s.1' % x
     else:
         va = ('    #[educe(%s)]\n' % vm[1]) if (derive and 1 in vm) else ''
+        va0 = ('#[educe(%s)]\n    ' % vm[0]) if (derive and 0 in vm) else ''
         fa0 = (lambda k: '') if s == 'Default' else fa
         unit = '' if s in ('Deref', 'Into') else '    Zunit,\n'
-        src = head + 'pub enum %s%s%s {\n    %s(%s%s, %s%s, %s%s),\n%s    %s { %s },\n%s}\n' % (
-            ty, gdecl, where, nm['v0'], fa0(0), fts[0], fa0(1), fts[1], fa0(2), fts[2], va, nm['v1'],
+        src = head + 'pub enum %s%s%s {\n    %s%s(%s%s, %s%s, %s%s),\n%s    %s { %s },\n%s}\n' % (
+            ty, gdecl, where, va0, nm['v0'], fa0(0), fts[0], fa0(1), fts[1], fa0(2), fts[2], va, nm['v1'],
             ', '.join('%s%s: %s' % (fa(k), fn[k], fts[k]) for k in range(3)), unit)
         mk = lambda vals: '%s::%s { %s }' % (ty, nm['v1'], ', '.join('%s: %s' % (fn[k], vals[k]) for k in range(3)))
         get1 = lambda x: 'match &%s { %s::%s { %s: q, .. } => *q, _ => 0 }' % (x, ty, nm['v1'], fn[1])
@@ -201,11 +230,15 @@ def check(v, tier):
                         continue
                     nm = hostile_names(role, name)
                     jobs.append(('C19|%s|%s|%s|%s' % (role, ident, kind, s), program(s, kind, nm), program(s, kind, nm, derive=False), role, ident))
+                if role == 'field' or (tier != 'quick' and role in ('typaram', 'constparam', 'variant')):
+                    for s in XSETS:
+                        nm = hostile_names(role, name)
+                        jobs.append(('C19|%s|%s|%s|%s' % (role, ident, kind, s), program(s, kind, nm), program(s, kind, nm, derive=False), role, ident))
     # two sibling fields whose names differ by a prefix the templates use for their bindings; tuple-binding names as field names
     pairs = [(p + 'q', 'q') for p in prefixes] + [('q', p + 'q') for p in prefixes] + [('_0', '__0'), ('__0', '_0'), ('_1', '_0'), ('_0', '_1'), ('__1', '_1')]
     for (x, y) in pairs:
         for kind in ('sn', 'en'):
-            for s in SETS:
+            for s in SETS + XSETS:
                 nm = dict(NEUTRAL)
                 nm['f1'], nm['f0'] = x, y
                 jobs.append(('C19|fieldpair|%s+%s|%s|%s' % (x, y, kind, s), program(s, kind, nm), program(s, kind, nm, derive=False), 'fieldpair', x))
@@ -246,7 +279,7 @@ def check(v, tier):
             v.cov['traces_validated_against_impl'] += 1
     return v.finish('(a) every identifier harvested from the expansions of the catalogue corpus (computed per run by the in-process engine, so identifiers introduced by a code change are picked up) x role '
                     '{field name, variant name, type parameter, const parameter, lifetime, type name} x shape {named struct, tuple struct, enum} x trait set {Debug with a method field, Clone with a method, '
-                    'Copy+Clone, PartialEq+Eq, PartialOrd, Ord, Hash, Default with new, Deref+DerefMut, Into x2}; sibling fields whose names differ by a binding prefix the templates use (harvested), '
+                    'Copy+Clone, PartialEq+Eq, PartialOrd, Ord, Hash, Default with new, Deref+DerefMut, Into x2}; for field names additionally the attribute-dependent template paths {Debug with named_field flipped (with and without a method field), Debug with the name off, PartialEq / PartialOrd+Ord / Hash / Clone with methods on the neighbouring fields}; sibling fields whose names differ by a binding prefix the templates use (harvested), '
                     'tuple-binding names as field names; (b) the derive placed in a module that shadows, in the type and value namespaces, each of 34 prelude / std names and 13 module names, one at a '
                     'time and all at once; #![no_std] crate.  Guard: a twin with a hand-written marker impl and no derive must compile, otherwise the identifier / role pair is dropped as ill-typed '
                     'on the user\'s side.  Oracle: compiles and a behavioural mini-oracle per trait set gives the expected result',
